@@ -24,3 +24,5 @@ func DefaultFlags() []bool                                 { return ignorefiles.
 func NewUnpackInfo(dst string, h *tar.Header) (UnpackInfo, error) {
 	return unpackinfo.NewUnpackInfo(dst, h)
 }
+
+func SetDefaultFlags(flags []bool) { ignorefiles.VerifSetDefaultFlags(flags) }
